@@ -60,6 +60,8 @@ def c07(tier, rng, fam='C07'):
                         b.step('recv', c=1)            # a later receive
                         b.step('send', c=1, pay='late')  # a later send
                         b.step('recv', c=1)
+                        if not any(st[0] == 'close' for st in steps[:pos]):
+                            b.step('close', c=1)          # a later half-close (a deferred CloseSend): the reset was the last word
                         for o in range(others):
                             b.step('hop', c=10 + o, h=ret(pay='p%d' % o))
                         b.step('ucall', c=99, pay='probe', to=H, hp=[ret(pay='pong')])
@@ -1673,6 +1675,17 @@ def unencodable_elsewhere(fam):
     for it, the stream goes on and ends normally)"""
     out = []
     for ser in (True, False):
+        for kind in ('bidi', 'ss'):
+            for nxt in ('msg', 'ret', 'reterr'):
+                # headers set, then the FIRST Send is the one the codec refuses: the headers are still owed - they travel
+                # with the next message or with the final status
+                hp = [dict(o='recv'), dict(o='sethdr', md=[['hk', 'hv'], ['b-bin', '\x00\xfe']]), dict(o='sendbad')]
+                hp += [dict(o='send', pay='ok after all')] if nxt == 'msg' else []
+                hp += [dict(o='drain'), ret(code=15 if nxt == 'reterr' else 0, msg='data loss' if nxt == 'reterr' else '')]
+                b = B(fam, '%s handler sets headers, its first Send is unencodable, then %s (%s)' % (kind, nxt, 'serialising' if ser else 'by reference'), ser=ser)
+                b.step('sopen', c=1, kind=kind, hp=hp)
+                b.step('send', c=1, pay='go').step('close', c=1).step('hdr', c=1).step('recv', c=1, n=2).step('trl', c=1)
+                out.append(b.q().done())
         b = B(fam, 'unary call with an unencodable request (%s)' % ('serialising' if ser else 'by reference'), ser=ser)
         b.step('ucall', c=1, pay='warm', hp=[ret(pay='up')])
         b.step('ucall', c=2, what='bad', hp=[])
